@@ -34,19 +34,41 @@ class PLFS:
         self.dur_d: Dict[int, bytes] = {}
         self.nxt = 0
         self.problems: List[str] = []
+        self.n = 0                                  # raw events applied so far
+        self.hist: List[Tuple[int, str, Optional[int]]] = []   # (index of the raw event, name, inode it had BEFORE)
+
+    def _set(self, q: str, i: Optional[int]) -> None:
+        self.hist.append((self.n - 1, q, self.vol_e.get(q)))
+        if i is None:
+            self.vol_e.pop(q, None)
+        else:
+            self.vol_e[q] = i
+
+    def entries_as_of(self, k: int) -> Dict[str, int]:
+        """the visible entries after the first k raw events (k <= events applied)"""
+        e = dict(self.vol_e)
+        for idx, q, old in reversed(self.hist):
+            if idx < k:
+                break
+            if old is None:
+                e.pop(q, None)
+            else:
+                e[q] = old
+        return e
 
     def rel(self, p: str) -> str:
         return os.path.relpath(p, self.root) if p != self.root else ""
 
     def apply(self, ev: Dict[str, Any]) -> None:
         op = ev["op"]
+        self.n += 1
         if op in ("mark", "mkdir"):
             return
         p = self.rel(ev["path"]) if ev.get("path", "").startswith(self.root) else ev.get("path")
         if op == "open":
             fl = ev["flags"]
             if "O_CREAT" in fl and p not in self.vol_e:
-                self.vol_e[p] = self.nxt
+                self._set(p, self.nxt)
                 self.vol_d[self.nxt] = b""
                 self.dur_d[self.nxt] = b""
                 self.nxt += 1
@@ -69,23 +91,41 @@ class PLFS:
         elif op == "fsync":
             if ev.get("isdir"):
                 d = p
-                for q in list(self.dur_e):
-                    if os.path.dirname(q) == d and q not in self.vol_e:
-                        del self.dur_e[q]
-                for q, i in self.vol_e.items():
-                    if os.path.dirname(q) == d:
-                        self.dur_e[q] = i
+                # a directory fsync persists the entries the directory had when the call was ISSUED; in a
+                # multi-threaded trace other threads' renames may lie between its issue (raw index issued_at) and
+                # its return (this event): they are NOT covered by it
+                k = ev.get("issued_at")
+                if k is None or k >= self.n - 1:
+                    for q in list(self.dur_e):
+                        if os.path.dirname(q) == d and q not in self.vol_e:
+                            del self.dur_e[q]
+                    for q, i in self.vol_e.items():
+                        if os.path.dirname(q) == d:
+                            self.dur_e[q] = i
+                else:
+                    then = self.entries_as_of(k)
+                    later = {q for idx, q, _ in self.hist if idx >= k}
+                    for q in {q for q in list(self.dur_e) + list(then) + list(self.vol_e) if os.path.dirname(q) == d}:
+                        if q in later and self.dur_e.get(q) == self.vol_e.get(q):
+                            continue          # a change made after the issue is durable already (somebody else's fsync)
+                        i = then.get(q) if q in later else self.vol_e.get(q)
+                        if i is None:
+                            self.dur_e.pop(q, None)
+                        else:
+                            self.dur_e[q] = i
             elif p in self.vol_e:
                 i = self.vol_e[p]
                 self.dur_d[i] = self.vol_d[i]
         elif op == "rename":
             q = self.rel(ev["path2"])
             if p in self.vol_e:
-                self.vol_e[q] = self.vol_e.pop(p)
+                i = self.vol_e[p]
+                self._set(p, None)
+                self._set(q, i)
             else:
                 self.problems.append(f"rename of unknown file {p}")
         elif op == "unlink":
-            self.vol_e.pop(p, None)
+            self._set(p, None)
         else:
             self.problems.append(f"unexpected call {ev.get('call')} on {p}")
 
@@ -275,11 +315,13 @@ def _describe(ev: Dict[str, Any], root: str) -> str:
         return os.path.relpath(p, root) if p and p.startswith(root) else str(p)
     op = ev["op"]
     if op == "rename":
-        return f"rename {r(ev['path'])} -> {r(ev['path2'])}"
+        return f"rename {r(ev['path'])} -> {r(ev['path2'])}" + (f" [thread {ev['tid']}]" if "tid" in ev else "")
     if op in ("write", "pwrite"):
         return f"{op} {r(ev['path'])} ({len(ev['data'])} bytes)"
     if op == "fsync":
-        return f"fsync{'(dir)' if ev.get('isdir') else ''} {r(ev['path'])}"
+        return (f"fsync{'(dir)' if ev.get('isdir') else ''} {r(ev['path'])}"
+                + (f" [issued before raw call #{ev['issued_at'] + 1}, returned here]" if ev.get("issued_at") is not None else "")
+                + (f" [thread {ev['tid']}]" if "tid" in ev else ""))
     if op == "mark":
         return f"mark {ev['label']}"
     return f"{op} {r(ev.get('path'))}"
